@@ -88,6 +88,35 @@ def run(v, O):
             out.append((f'call {i + 1}: value as on a fresh instance', O.veq(hist[i][1], w[1])))
     return out
 '''
+ENV_SRC = '''
+def run(v, O):
+    # atoms that read names from outside state (the documentation's foo/bar example): after the state changed, a used instance answers like a fresh one;
+    # an atom handed back to the caller and modified there does not come back in a later call
+    env = {'foo': v.a, 'bar': v.b}
+    class Atom(AtomBase):
+        def __init__(self, value):
+            if isinstance(value, str):
+                value = value.strip()
+                self.value = env[value] if value in env else float(value)
+            else:
+                self.value = value
+    mk = lambda: ExpressionSolver(Atom)
+    es = mk()
+    out = []
+    first = outcome(lambda: es.solve(v.first))
+    out.append(('first call as on a fresh instance', O.same(first[0], 'value') and O.veq(first[1], mk().solve(v.first).value)))
+    env['foo'] = v.c; env['bar'] = v.d
+    for text in v.later:
+        got = outcome(lambda: es.solve(text))
+        want = outcome(lambda: mk().solve(text))
+        out.append((f'{text} after the outside values changed: as on a fresh instance', O.same(got[0], want[0]) and (O.veq(got[1], want[1]) if got[0] == 'value' else True)))
+    es2 = ExpressionSolver(AtomBase)
+    r = es2.solve(O.lit(v.e))
+    r.value = v.f                      # the caller owns the result
+    got = outcome(lambda: es2.solve(O.lit(v.e) + ' + 1'))
+    out.append(('a result modified by the caller does not come back', O.same(got[0], 'value') and O.veq(got[1], v.e + 1)))
+    return out
+'''
 
 # texts use {a}..{f} placeholders for symbolic leaves
 OK = {'default': ['{a}+{b}*{c}', '({a}-{b})/{c}', '{a}**2', 'sqrt({a})+logb({b},{c})', '{a}<{b}&&{c}', '-{a}*{b}', '!{a}||{b}'],
@@ -182,6 +211,8 @@ def scenarios(tier, seed):
             bad = text[:cut] + 'x' + text[cut:] if j % 2 else text + '*'
             S.append(Scenario(f'default/sampled/{j}', SRC, names, pre, consts={'cfg': 'default', 'history': [text, bad], 'probe': PROBE['default'][j % 6]}, preamble=PRE,
                               what=f'[{text!r}, {bad!r}, probe] on one default solver', samples=1))
+    for j, (first, later) in enumerate([('foo * 2', ['foo * 2', 'foo + bar', '(foo) + 1']), ('foo + bar * 3', ['bar', 'foo - bar', 'sqrt(foo * foo)']), ('(foo + 1) * bar', ['(foo + 1) * bar', 'bar * bar'])]):
+        S.append(Scenario(f'outside-state/{j}', ENV_SRC, names, pre, consts={'first': first, 'later': later}, preamble=PRE, what=f'custom atoms reading outside values that change between the calls ({first!r}, then {later})', samples=2))
     S.append(Scenario('canary/history', SRC.replace("O.veq(got[1], want[1])", "O.veq(got[1], want[1] + 1)"), names, pre,
                       consts={'cfg': 'default', 'history': ['{a}+{b}'], 'probe': '{d}*{e}'}, preamble=PRE, canary=True))
     return S
